@@ -1,0 +1,112 @@
+//go:build verif
+
+// Contracts for package stat, checked by /verif (govc). Comment-only: this file adds no code.
+// float64 is an extended real here: a finite real number, +Inf, -Inf or NaN (assumption A-REAL:
+// arithmetic on finite values is exact; -0 is identified with +0).
+
+package stat
+
+//@ mode ints=wrap floats=ext
+
+// Representation invariant. In real arithmetic the Kahan compensation term is always 0.
+//@ pred SSInv(s *SummaryStatistics) := finite(s.count) && finite(s.sum) && finite(s.simpleSum) && same(s.sumCompensation, xf(0.0)) && !isnan(s.min) && !isnan(s.max)
+//@ pred SSEmptyState(s *SummaryStatistics) := same(s.count, xf(0.0)) && same(s.sum, xf(0.0)) && same(s.sumCompensation, xf(0.0)) && same(s.simpleSum, xf(0.0)) && same(s.min, pinf()) && same(s.max, ninf())
+//@ pred SSSame(a *SummaryStatistics, b *SummaryStatistics) := same(a.count, b.count) && same(a.sum, b.sum) && same(a.sumCompensation, b.sumCompensation) && same(a.simpleSum, b.simpleSum) && same(a.min, b.min) && same(a.max, b.max)
+
+//@ func NewSummaryStatistics
+//@   serves C10 C15
+//@   ensures result != nil && fresh(result)
+//@   ensures SSEmptyState(result) && SSInv(result)
+
+//@ func NewSummaryStatisticsFromData
+//@   serves C13 C10
+//@   requires !isnan(sum) && !isnan(min) && !isnan(max)
+//@   ensures reject-count: !(count >= 0.0) ==> result == nil && result1 != nil
+//@   ensures reject-minmax: count > 0.0 && min > max ==> result == nil && result1 != nil
+//@   ensures reject-empty: count == 0.0 && !(same(min, pinf()) && same(max, ninf())) ==> result == nil && result1 != nil
+//@   ensures accept: count >= 0.0 && !(count > 0.0 && min > max) && !(count == 0.0 && !(same(min, pinf()) && same(max, ninf()))) ==> result1 == nil && result != nil && fresh(result) && same(result.count, count) && same(result.sum, sum) && same(result.simpleSum, sum) && same(result.sumCompensation, xf(0.0)) && same(result.min, min) && same(result.max, max)
+
+//@ func SummaryStatistics.Count
+//@   serves C10 C12
+//@   ensures same(result, s.count)
+//@ func SummaryStatistics.Min
+//@   serves C10
+//@   ensures same(result, s.min)
+//@ func SummaryStatistics.Max
+//@   serves C10
+//@   ensures same(result, s.max)
+//@ func SummaryStatistics.Sum
+//@   serves C10 C20
+//@   requires SSInv(s)
+//@   ensures same(result, s.sum)
+
+//@ func SummaryStatistics.Add
+//@   serves C10 C20
+//@   requires SSInv(s) && finite(value) && finite(count)
+//@   ensures SSInv(s)
+//@   ensures same(s.count, old(s.count) + count)
+//@   ensures same(s.sum, old(s.sum) + value * count) && same(s.simpleSum, old(s.simpleSum) + value * count)
+//@   ensures min: same(s.min, value < old(s.min) ? value : old(s.min))
+//@   ensures max: same(s.max, value > old(s.max) ? value : old(s.max))
+//@   modifies s
+
+//@ func SummaryStatistics.AddToCount
+//@   serves C10
+//@   requires SSInv(s) && finite(addend)
+//@   ensures SSInv(s) && same(s.count, old(s.count) + addend)
+//@   ensures same(s.sum, old(s.sum)) && same(s.simpleSum, old(s.simpleSum)) && same(s.min, old(s.min)) && same(s.max, old(s.max))
+//@   modifies s
+
+//@ func SummaryStatistics.AddToSum
+//@   serves C10
+//@   requires SSInv(s) && finite(addend)
+//@   ensures SSInv(s) && same(s.sum, old(s.sum) + addend) && same(s.simpleSum, old(s.simpleSum) + addend)
+//@   ensures same(s.count, old(s.count)) && same(s.min, old(s.min)) && same(s.max, old(s.max))
+//@   modifies s
+
+//@ func SummaryStatistics.sumWithCompensation
+//@   serves C10
+//@   requires finite(s.sum) && same(s.sumCompensation, xf(0.0)) && finite(value)
+//@   ensures same(s.sum, old(s.sum) + value) && same(s.sumCompensation, xf(0.0))
+//@   ensures same(s.count, old(s.count)) && same(s.simpleSum, old(s.simpleSum)) && same(s.min, old(s.min)) && same(s.max, old(s.max))
+//@   modifies s
+
+//@ func SummaryStatistics.MergeWith
+//@   serves C10 C02
+//@   requires SSInv(s) && SSInv(o) && o != nil
+//@   ensures SSInv(s)
+//@   ensures same(s.count, old(s.count) + old(o.count)) && same(s.sum, old(s.sum) + old(o.sum)) && same(s.simpleSum, old(s.simpleSum) + old(o.simpleSum))
+//@   ensures min: same(s.min, old(o.min) < old(s.min) ? old(o.min) : old(s.min))
+//@   ensures max: same(s.max, old(o.max) > old(s.max) ? old(o.max) : old(s.max))
+//@   ensures arg: s != o ==> SSSame(o, old(o))
+//@   modifies s
+
+//@ func SummaryStatistics.Reweight
+//@   serves C10 C16
+//@   requires SSInv(s) && finite(factor)
+//@   ensures SSInv(s)
+//@   ensures same(s.count, old(s.count) * factor) && same(s.sum, old(s.sum) * factor) && same(s.simpleSum, old(s.simpleSum) * factor)
+//@   ensures minmax: factor != 0.0 ==> same(s.min, old(s.min)) && same(s.max, old(s.max))
+//@   ensures zero: factor == 0.0 ==> same(s.min, pinf()) && same(s.max, ninf())
+//@   modifies s
+
+//@ func SummaryStatistics.Rescale
+//@   serves C10 C17
+//@   requires SSInv(s) && finite(factor)
+//@   ensures SSInv(s)
+//@   ensures same(s.count, old(s.count)) && same(s.sum, old(s.sum) * factor) && same(s.simpleSum, old(s.simpleSum) * factor)
+//@   ensures pos: factor > 0.0 ==> same(s.min, old(s.min) * factor) && same(s.max, old(s.max) * factor)
+//@   ensures neg: factor < 0.0 ==> same(s.min, old(s.max) * factor) && same(s.max, old(s.min) * factor)
+//@   ensures zero: factor == 0.0 && old(s.count) != 0.0 ==> same(s.min, xf(0.0)) && same(s.max, xf(0.0))
+//@   ensures zero-empty: factor == 0.0 && old(s.count) == 0.0 ==> same(s.min, old(s.min)) && same(s.max, old(s.max))
+//@   modifies s
+
+//@ func SummaryStatistics.Clear
+//@   serves C10 C15
+//@   ensures SSEmptyState(s) && SSInv(s)
+//@   modifies s
+
+//@ func SummaryStatistics.Copy
+//@   serves C10 C14
+//@   ensures result != nil && fresh(result) && SSSame(result, s)
+//@   ensures SSSame(s, old(s))
